@@ -123,6 +123,29 @@ theorem C03_identity (tbl : List Word) (h : Word → Nat) (B : Nat) (hB : 1 ≤ 
 theorem C03_word_if_known_iff (tbl : List Word) (hs : StrictSorted tbl) (w : Word) (i : Nat) :
     wordIfKnown tbl w = some i ↔ tbl[i]? = some w := wordIfKnown_iff hs w i
 
+/-- The order the search relies on (`std::u8string_view::operator<`) is a strict **total** order on all byte strings —
+    irreflexive, transitive, and two words neither of which precedes the other are the same bytes (embedded NULs and
+    prefixes included): a sorted table therefore has no two entries the search could confuse. -/
+theorem C03_word_order_strict_total (a b c : Word) :
+    wordLt a a = false ∧ (wordLt a b = true → wordLt b c = true → wordLt a c = true) ∧
+    (wordLt a b = false → wordLt b a = false → a = b) := by
+  refine ⟨wordLt_irrefl a, wordLt_trans, ?_⟩
+  induction a generalizing b with
+  | nil => cases b <;> simp [wordLt]
+  | cons x xs ih =>
+    cases b with
+    | nil => simp [wordLt]
+    | cons y ys =>
+      simp only [wordLt, Bool.or_eq_false_iff, Bool.and_eq_false_imp, decide_eq_false_iff_not, beq_iff_eq, and_imp]
+      intro h1 h2 h3 h4
+      have hxy : x = y := by
+        apply UInt8.toNat_inj.mp
+        have h1' : ¬ x.toNat < y.toNat := fun h => h1 (UInt8.lt_iff_toNat_lt.mpr h)
+        have h3' : ¬ y.toNat < x.toNat := fun h => h3 (UInt8.lt_iff_toNat_lt.mpr h)
+        omega
+      subst hxy
+      rw [ih ys (h2 rfl) (h4 rfl)]
+
 /-- The table regenerated from src/impl.cxx is strictly sorted in the byte order the C++ uses … -/
 theorem C03_known_words_sorted : StrictSorted Ipr.Generated.knownWords :=
   sortedB_sound (by decide +kernel)
